@@ -37,7 +37,10 @@ int write_wdc(Memory *memory, FILE *out)
 
   for (n = memory->low_address; n <= memory->high_address; n++)
   {
-    if (memory->read_debug(n) == DL_EMPTY || length == 65536)
+    const bool is_empty = memory->read_debug(n) == DL_EMPTY;
+
+    // A block ends at a gap or when the buffer is full.
+    if (is_empty || length == 65536)
     {
       if (length != 0)
       {
@@ -49,7 +52,8 @@ int write_wdc(Memory *memory, FILE *out)
         address = -1;
       }
     }
-      else
+
+    if (is_empty == false)
     {
       if (address == -1) { address = n; }
 
